@@ -550,7 +550,10 @@ func (d *db) applyPut(batch WriteBatch, notifications *notifications, putReq *pr
 		prefixKey := putReq.Key
 		newKey, err = generateUniqueKeyFromSequences(batch, putReq)
 		putReq.Key = newKey
-		d.sequenceWaiterTracker.SequenceUpdated(prefixKey, newKey)
+		if err == nil {
+			// A refused request has generated no key: there is nothing to publish
+			d.sequenceWaiterTracker.SequenceUpdated(prefixKey, newKey)
+		}
 	} else if !internal {
 		se, err = checkExpectedVersionId(batch, putReq.Key, putReq.ExpectedVersionId)
 	}
